@@ -3,6 +3,7 @@
   Property theorems only (helpers: CC/ChaCha/Wide.lean, CC/ChaCha/Lemmas.lean).
 -/
 import CC.ChaCha.Wide
+import CC.Thm.C01
 namespace CC.Thm.C14
 open CC CC.Simd CC.ChaCha CC.ChaCha.Spec
 
@@ -51,5 +52,13 @@ theorem refill_block (s : Guts) (dr : Nat) :
 /-- Non-vacuity: a state whose low counter word is 2^32 − 1 carries into the high word. -/
 example : counter { b := 0, c := 0, d := pack32 0xffffffff#32 7#32 1#32 2#32 } + 1
     = 0x0000000800000000#64 := by decide
+
+
+/-- **Source tie.**  The definitions of `guts.rs` this property is about (`refill`, `refill4` = `refill_wide_impl`,
+    `inc_block_ct`, `d0123`, `add_pos`, `set_stream_param` / `get_stream_param`, the stream-equality predicates, the
+    constructors) are the ones REGENERATED from /repo's current source: same statement as `CC.Thm.C01.source_code_match`
+    and `source_kernels_match`, registered here so that a change of that code breaks an obligation of this property too. -/
+theorem source_code_match : type_of% @CC.Thm.C01.source_code_match ∧ type_of% @CC.Thm.C01.source_kernels_match :=
+  ⟨CC.Thm.C01.source_code_match, CC.Thm.C01.source_kernels_match⟩
 
 end CC.Thm.C14
